@@ -534,7 +534,7 @@ fn encode_args(
 
             if extra_arg.is_none() {
                 assert!(!first_normal_arg.expect_raw().is_reg, "checked above");
-                extra_arg = Some(first_normal_arg.expect_raw().expect_int() as _);
+                extra_arg = Some(fit_int_arg(first_normal_arg, emitter, |x: u16| x as i16)?);
             } else {
                 // Explicit @arg0, but also drawn from args.
                 // To keep the type checker's job simpler, we took an argument from the argument list anyways,
@@ -611,19 +611,19 @@ fn encode_args(
             => args_blob.write_i32(arg.expect_raw().expect_int()).expect("Cursor<Vec> failed?!"),
 
             | ArgEncoding::Integer { size: 2, format: ast::IntFormat { signed: true, radix: _ }, .. }
-            => args_blob.write_i16(arg.expect_raw().expect_int() as _).expect("Cursor<Vec> failed?!"),
+            => args_blob.write_i16(fit_int_arg(arg, emitter, |x: u16| x as i16)?).expect("Cursor<Vec> failed?!"),
 
             | ArgEncoding::Integer { size: 1, format: ast::IntFormat { signed: true, radix: _ }, .. }
-            => args_blob.write_i8(arg.expect_raw().expect_int() as _).expect("Cursor<Vec> failed?!"),
+            => args_blob.write_i8(fit_int_arg(arg, emitter, |x: u8| x as i8)?).expect("Cursor<Vec> failed?!"),
 
             | ArgEncoding::Integer { size: 4, format: ast::IntFormat { signed: false, radix: _ }, .. }
             => args_blob.write_u32(arg.expect_raw().expect_int() as _).expect("Cursor<Vec> failed?!"),
 
             | ArgEncoding::Integer { size: 2, format: ast::IntFormat { signed: false, radix: _ }, .. }
-            => args_blob.write_u16(arg.expect_raw().expect_int() as _).expect("Cursor<Vec> failed?!"),
+            => args_blob.write_u16(fit_int_arg(arg, emitter, |x: i16| x as u16)?).expect("Cursor<Vec> failed?!"),
 
             | ArgEncoding::Integer { size: 1, format: ast::IntFormat { signed: false, radix: _ }, .. }
-            => args_blob.write_u8(arg.expect_raw().expect_int() as _).expect("Cursor<Vec> failed?!"),
+            => args_blob.write_u8(fit_int_arg(arg, emitter, |x: i8| x as u8)?).expect("Cursor<Vec> failed?!"),
 
             | ArgEncoding::Integer { size, .. }
             => panic!("unexpected integer size: {size}"),
@@ -709,6 +709,23 @@ fn encode_args(
         arg_count: instr.user_arg_count.unwrap_or(0),
         pop: instr.user_pop.unwrap_or(0),
     })
+}
+
+/// Narrow an integer argument to the integer type of its encoding.
+///
+/// A value is accepted if it fits in the field either as a signed or as an unsigned number
+/// (so `-1` and `0xFFFF` both produce the same 16 bits); anything else is reported as an error
+/// rather than being silently truncated.
+fn fit_int_arg<T, Alt>(arg: &Sp<LowerArg>, emitter: &impl Emitter, reinterpret: impl FnOnce(Alt) -> T) -> Result<T, ErrorReported>
+where
+    T: TryFrom<i32>,
+    Alt: TryFrom<i32>,
+{
+    let value = arg.expect_raw().expect_int();
+    T::try_from(value).or_else(|_| Alt::try_from(value).map(reinterpret)).map_err(|_| emitter.emit(error!(
+        message("argument value does not fit in {} bits", 8 * std::mem::size_of::<T>()),
+        primary(arg, "value {value} is out of range for this parameter"),
+    )))
 }
 
 // =============================================================================
